@@ -182,6 +182,7 @@ def onsurface(eq, mesh, spec):
         }
     out["refine_atol"] = float(eq.user_options.refine_atol)
     out["xpoints"] = [(float(p.R), float(p.Z)) for p in getattr(eq, "x_points", [])]
+    out["xpoints_psi"] = [float(eq.psi(p.R, p.Z)) for p in getattr(eq, "x_points", [])]
     return out
 
 
